@@ -15,6 +15,7 @@ import Driver.PotentialCmd
 import Driver.ScoreCmd
 import Driver.GroupCmd
 import Driver.SeekCmd
+import Driver.BinCmd
 /-
 `raindrv`: one request per line on stdin, one answer per line on stdout.
 Unknown or malformed requests answer `bad-request` (never a default value).
@@ -43,6 +44,7 @@ def dispatch (toks : List String) : String :=
       else if cmd.startsWith "score." then scoreCmd toks
       else if cmd.startsWith "group." then groupCmd toks
       else if cmd.startsWith "seek." then seekCmd toks
+      else if cmd.startsWith "bin." then binCmd toks
       else none
     match r with
     | some s => s
